@@ -389,12 +389,16 @@ def run_all(ctx, run, binp, law_fams, a_fams, b_fam, nb, seeds=1, par=4, law_wor
             files.append(("B:" + b_fam, out))
             b_paths.append(out)
     # parts in proportion to the size of the files
+    # (more parts than processes: the cost of judging is roughly proportional to the bytes, and the
+    # few files with 64 KiB events would otherwise be the longest pole)
     total = sum(os.path.getsize(p) for _, p in files) or 1
+    target = max(total / (2.0 * par), 1500000.0)
     parts = []
     for label, p in files:
-        k = max(1, round(par * os.path.getsize(p) / total))
+        k = max(1, int(-(-os.path.getsize(p) // target)))
         for q in split(p, k):
             parts.append((label, q))
+    parts.sort(key=lambda lp: -os.path.getsize(lp[1]))
     res = judge([p for _, p in parts], par=par)
     for (label, _), r in zip(parts, res):
         run.account([r], label)
